@@ -205,6 +205,13 @@ func prefixLen(m []byte) int {
 }
 
 func mkSubMask(base nip, mask []byte) sub {
+	if base.v6 && len(mask) == 16 && prefixLen(mask[:12]) == 96 {
+		// a subnet inside ::ffff:0:0/96 is an IPv4 subnet (that is how net.IPNet prints, stores and
+		// matches it); derived subnets (an edge address of a wider one, re-masked) can land there
+		if v4, ok := normalize(net.IP(base.b[:])); ok && !v4.v6 {
+			return mkSubMask(v4, mask[12:])
+		}
+	}
 	s := sub{v6: base.v6, base: base, bits: prefixLen(mask)}
 	copy(s.m[:], mask)
 	for i := range mask {
